@@ -261,6 +261,9 @@ Scenario ==
                      [mul_pool |-> 2, mul_flux |-> 1, x |-> Xs[2], e |-> sc.e0, de |-> sc.pool2],
                      [mul_pool |-> 2, mul_flux |-> 2, x |-> Xs[2], e |-> sc.e0, de |-> sc.scaled[2]]>>,
      sess |-> sc.sess,
+     \* `concs` is the full steady state of the base model: bystander variables no mapped reaction touches, one of them
+     \* literally called EXT (its amount is NOT the external enrichment)
+     extra_concs |-> [EXT |-> 5, W |-> 7],
      unit_evals |-> <<[unit |-> SmallUnit, x |-> Xs[2], e |-> sc.e0, de |-> sc.lin[2]]>>,
      evals |-> <<[what |-> "isotopomer-derived", x |-> Q!One, e |-> sc.e0, de |-> sc.iso]>>
                \o [k \in 1..2 |-> [what |-> "linear definition, EXT below 1", x |-> Xs[k], e |-> sc.e0, de |-> sc.lin[k]]]
